@@ -28,14 +28,15 @@ REGISTRY = dict(
           "_from_operator_repr (last assignment wins) = Kronecker definitions before truncation. PARTIAL: agreement of the "
           "truncating operations 'to within the truncation precision' (TruncationFaithful) rests on the eigh contract of C10 "
           "and is stated, not proved; entanglement entropy rests on svdvals (assumed); expect_batch is covered by the dense "
-          "oracle only. AS FOUND: get_correlation_matrix(operator) contracts operator^T and puts <O_i> on the diagonal - "
-          "kernel-checked counterexamples corr_offdiag_counterexample / corr_diag_counterexample, replayed on the real code "
-          "(known findings T1, T2; the default n operator is unaffected). Model tied to the code by exact Gaussian-integer "
+          "oracle only. get_correlation_matrix(operator): the model is the code after fix 7ffda71 (T1 fixed: it "
+          "contracted operator^T; corr_offdiag_counterexample documents the old variant, corr_offdiag_repaired_witness the new "
+          "one); still open T2: <O_i> on the diagonal, documented <O_i O_i> (corr_diag_counterexample, replayed on the real "
+          "code; the default n operator is unaffected). Model tied to the code by exact Gaussian-integer "
           "correspondence (incl. the correlation-matrix contractions)."),
     note=("Trusted: Lean kernel + propext/Classical.choice/Quot.sound; Mathlib; hand-written Model.Tensor tied by "
           "correspondence only (generator-bounded); torch.linalg.qr/eigh/svdvals are oracles (only q r = m is used); "
           "binary64 rounding outside the theorems; truncation error bound (n-1)*precision validated numerically, not proved. "
-          "Known findings: get_correlation_matrix(operator) uses operator^T off the diagonal and <O_i> (not <O_i O_i>) on it."),
+          "Known finding T2 (open): get_correlation_matrix(operator) puts <O_i> (not <O_i O_i>) on the diagonal; T1 (operator^T off the diagonal) fixed by 7ffda71."),
     technique="Lean 4 proof (induction over sites, explicit index-tuple bijections for the contractions) + exact model/implementation correspondence + dense-reference oracle",
     design_ref="DESIGN.md §5 C11",
 )
@@ -323,7 +324,15 @@ def gen_correspondence(rep: Report, rng, tier: str) -> Corr:
             def cmp_corr(reply, want=want):
                 got = [tu.dec_z(v).real for v in reply.split(",")]
                 return None if got == want else f"row differs: model {got} real {want}"
-            C.add("get_correlation_matrix", f"t.corr z {d} {tu.enc_vals(op, 'z')} {tu.enc_chain(facs[left:], 'z')}", cmp_corr)
+            C.add("get_correlation_matrix", f"t.corr z r {d} {tu.enc_vals(op, 'z')} {tu.enc_chain(facs[left:], 'z')}", cmp_corr)
+
+            def note_variant(reply, want=want, rep=rep):
+                got = [tu.dec_z(v).real for v in reply.split(",")]
+                rep.hist("corr_matches_asFound_variant", got == want)   # informational: which variant /repo is
+                return None
+            if left == 0:
+                C.add("get_correlation_matrix(asFound variant, informational)",
+                      f"t.corr z a {d} {tu.enc_vals(op, 'z')} {tu.enc_chain(facs[left:], 'z')}", note_variant)
 
     # ---- _from_state_amplitudes, truncation and normalisation switched off
     bases = {"rg": [("r", "g"), ("g", "r")], "zo": [("0", "1"), ("1", "0")], "rgx": [("g", "r", "x"), ("x", "r", "g")]}
@@ -631,10 +640,10 @@ def oracle_case(kind: str, cs: int) -> list[tuple[str, dict, str | None]]:
                     off = max(off, dev)
         tol = 1e-8 * max(1.0, nrm2 * float(H.abs().max()) ** 2)
         if off > tol:
-            bad(f"get_correlation_matrix(operator=H) off-diagonal deviates from ⟨H_i H_j⟩ by {off:.3e} (it contracts Hᵀ)",
+            bad(f"get_correlation_matrix(operator=H) off-diagonal deviates from ⟨H_i H_j⟩ by {off:.3e} (Hᵀ contracted? fixed by 7ffda71)",
                 klass="corr-matrix-operator-transposed")
         if diag > tol:
-            bad(f"get_correlation_matrix(operator=H) diagonal deviates from ⟨H_i H_i⟩ by {diag:.3e} (it returns ⟨Hᵀ_i⟩)",
+            bad(f"get_correlation_matrix(operator=H) diagonal deviates from ⟨H_i H_i⟩ by {diag:.3e} (it returns ⟨H_i⟩)",
                 klass="corr-matrix-diagonal-single-operator")
         # real symmetric idempotent-free operator: off-diagonal must be right even as found
         Sx = torch.zeros(d, d, dtype=tu.DT)
